@@ -27,13 +27,13 @@ class State:
         s.apps = []        # libm applications on this path: (fname, args tuple, result)
         s.cow = set()      # ids of objects owned (copied) by this state
         s.events = []      # (kind, payload) recorded by harness-visible primitives
-        s.nin = 0
+        s.nin = 0; s.frozen = False
     def clone(s):
         t = State(); t.frames = [f.clone() for f in s.frames]
         t.mem = dict(s.mem); s.cow = set(); t.cow = set()       # copy-on-write: both lose ownership
         t.next_obj = s.next_obj; t.pc = list(s.pc); t.globals = dict(s.globals); t.log = list(s.log); t.steps = s.steps; t.subst = dict(s.subst)
         t.inputs = list(s.inputs); t.outs = list(s.outs); t.model = s.model; t.reads = None if s.reads is None else set(s.reads)
-        t.writes = list(s.writes); t.apps = list(s.apps); t.events = list(s.events); t.nin = s.nin
+        t.writes = list(s.writes); t.apps = list(s.apps); t.events = list(s.events); t.nin = s.nin; t.frozen = s.frozen
         return t
     def alloc(s, size, name=''):
         i = s.next_obj; s.next_obj += 1; s.mem[i] = Obj(size, name); s.cow.add(i); return i
@@ -55,7 +55,10 @@ class Memory:
         return o
 
     def overlapping(s, o, off, n):
-        return [k for k in o.cells if k < off + n and k + o.cells[k][0] > off]
+        cells = o.cells
+        if n + 16 < len(cells):          # scalar cells are at most 16 bytes wide: probe instead of scanning
+            return [k for k in range(off - 15, off + n) if k in cells and k + cells[k][0] > off]
+        return [k for k in cells if k < off + n and k + cells[k][0] > off]
 
     def load(s, st, ty, p):
         n = s.mod.size(ty)
